@@ -62,6 +62,9 @@ def _create_merge_candidates(merge_expr: exp.Merge) -> exp.Expression:
         matched = w.args.get("matched")
         then = w.args.get("then")
         condition = w.args.get("condition")
+        if isinstance(condition, exp.Or):
+            # WHEN [NOT] MATCHED AND a OR b means [not] matched AND (a OR b), not ([not] matched AND a) OR b
+            condition = exp.paren(condition)
 
         if matched:
             # matchedClause see https://docs.snowflake.com/en/sql-reference/sql/merge#matchedclause-for-updates-or-deletes
